@@ -22,7 +22,8 @@ RULE = (
     "(c) token soup from the keywords of all patterns; (d) address-like soup - under any salt (empty, any first character), "
     "all 16 feature subsets (+ undo), valid option sets. Oracle: anonymize_io returns and writes exactly one line per input "
     "line; any exception is a violation keyed by type and innermost netconan frame. files: a generated file with a poisonous "
-    "line in the middle must yield an output file with the same number of lines and no ERROR record. fuzz (thorough): "
+    "line in the middle must yield an output file with the same number of lines and no ERROR record. long: one anonymizer "
+    "processes one text with thousands of distinct IPv4/IPv6 addresses and secrets. fuzz (thorough): "
     "atheris coverage-guided campaign on the same target with the oracle inside. Non-trivial = line on which at least one "
     "stage acts (output differs from input) or that contains a pattern keyword / hash prefix; distinct by line."
 )
@@ -108,7 +109,33 @@ def check_file(case, ev):
     return None
 
 
-REPLAY = {"lines": check_line, "files": check_file, "fuzz": check_line}
+def check_long(case, ev):
+    """case: {salt, n4, n6, start4, start6, stride}: one FileAnonymizer processes one long text with
+    thousands of distinct addresses (plus secrets); every line must come out."""
+    n4, n6 = case["n4"], case["n6"]
+    lines = []
+    for i in range(max(n4, n6)):
+        if i < n4:
+            x = (case["start4"] + i * (case["stride"] | 1)) & 0xFFFFFFFF
+            lines.append(" ip address %d.%d.%d.%d 255.255.255.0" % (x >> 24, (x >> 16) & 255, (x >> 8) & 255, x & 255))
+        if i < n6:
+            y = (case["start6"] + i * ((case["stride"] << 70) | 1)) & ((1 << 128) - 1)
+            lines.append("ipv6 address %x:%x:%x:%x:%x:%x:%x:%x/64" % tuple((y >> (16 * (7 - g))) & 0xFFFF for g in range(8)))
+        if i % 50 == 0:
+            lines.append("username u%d password Pw%dxQ" % (i, i))
+    fa, exc = guarded(make_fa, {"features": [True, True, False, False], "salt": case["salt"], "B": case.get("B", 8)})
+    if exc is not None:
+        return core.exc_finding(exc, case, "ctor/")
+    out, exc = guarded(core.run_io, fa, "".join(l + "\n" for l in lines))
+    ev.bulk(len(lines), len(lines), sample=case, classes={"gen-long-file": len(lines)})
+    if exc is not None:
+        return core.exc_finding(exc, case, "long/")
+    if out.count("\n") != len(lines):
+        return Finding("long/line-count-changed", "%d lines in, %d out" % (len(lines), out.count("\n")), case)
+    return None
+
+
+REPLAY = {"lines": check_line, "files": check_file, "fuzz": check_line, "long": check_long}
 
 # ---------------------------------------------------------------- generators
 
@@ -200,11 +227,17 @@ def t_files(shard, nshards, seed, ev, known, n=100):
     return core.hyp_drive(_file_case(), check_file, n, seed, ev, known, check_name="files", max_keys=6)
 
 
+def t_long(shard, nshards, seed, ev, known, n4=6000, n6=1200):
+    cases = [{"salt": ["s", "", "Tsalt", "_x"][k % 4], "n4": n4, "n6": n6, "start4": core.derive("l4", seed, k) & 0xFFFFFFFF, "start6": core.derive("l6", seed, k) << 64, "stride": (core.derive("st", seed, k) & 0xFFFFFF) | 0x10001, "B": [8, 0, 8, 32][k % 4]} for k in range(nshards) if k % nshards == shard]
+    return core.enum_drive(cases, check_long, ev, known, "long")
+
+
 def plan(tier):
     q = tier == "quick"
     tasks = [
         Task("lines", t_lines, shards=8 if q else 16, n=1500 if q else 150000),
         Task("files", t_files, shards=2 if q else 16, n=150 if q else 5000),
+        Task("long", t_long, shards=2 if q else 8, n4=6000 if q else 40000, n6=1200 if q else 6000),
     ]
     if not q:
         from ..fuzz import c14_fuzz
